@@ -17,8 +17,13 @@ const OPS: [(&str, Option<Order>); 7] = [
 ];
 
 fn single_ops<E: Elem>(out: &mut Out, bound: usize) {
-    for nr in 0..=bound {
-        for nc in 0..=bound {
+    let shapes: Vec<(usize, usize)> = (0..=bound).flat_map(|r| (0..=bound).map(move |c| (r, c))).collect();
+    single_ops_on::<E>(out, &shapes);
+}
+
+fn single_ops_on<E: Elem>(out: &mut Out, shapes: &[(usize, usize)]) {
+    for &(nr, nc) in shapes {
+        {
             for order in ORDERS {
                 out.case(&format!("single elem={} class={} shape={nr}x{nc} order={}", E::KIND, shape_class(nr, nc), ord_ch(order)));
                 out.count(&format!("shape-class:{}", shape_class(nr, nc)));
@@ -78,6 +83,9 @@ pub fn run_c05(out: &mut Out, rng: &mut Rng, tier: Tier) -> String {
     let bound = if tier == Tier::Quick { 9 } else { 12 };
     single_ops::<Tok>(out, bound);
     single_ops::<()>(out, if tier == Tier::Quick { 4 } else { 6 });
+    // beyond the size thresholds at which an implementation might switch algorithms
+    single_ops_on::<Tok>(out, &LARGE);
+    single_ops_on::<u32>(out, &LARGE[..2]);
     let n = if tier == Tier::Quick { 400 } else { 4000 };
     compositions::<Tok>(out, rng, n, 9, 20);
     compositions::<()>(out, rng, n / 8, 5, 12);
@@ -98,7 +106,7 @@ pub fn run_c05(out: &mut Out, rng: &mut Rng, tier: Tier) -> String {
     format!(
         "exhaustive core: every shape 0..={bound} x 0..={bound} (square, 1xn, nx1, coprime, common-factor, degenerate) x both orders x the seven operation forms \
          (transpose [applied twice], switch_order, switch_order_without_rearrangement, set_order R/C, set_order_without_rearrangement R/C) on token elements (unique id, clone/drop ledger), \
-         the same for zero-sized elements up to a smaller bound; then {n} random compositions (length <= 20) of the operations on shapes up to 9x9. \
+         the same for zero-sized elements up to a smaller bound; the seven forms on 64x65, 63x65, 3x1400, 1x4099, 4099x1 and 33x32 (beyond 1024 / 4096 elements); then {n} random compositions (length <= 20) of the operations on shapes up to 9x9. \
          Oracle after every operation: every coordinate through get() against an independent row-of-rows reference, order tag, shape, ledger silent, double transpose restores the memory sequence. \
          A case is non-trivial when the shape has both extents > 1 (elements actually move) and elements are tokens"
     )
